@@ -97,6 +97,9 @@ def make_quantity(node):
         assert not fid and field in ("x", "y", "s", "c")
         return field
     fn = eval(_fn_src(field, fid), {})
+    if form == "tup" and field == "N2" and not fid:
+        # the vector of a Bag as a tuple of plain Python floats (row-wise histories only)
+        fn = eval("lambda d: (d['x'], d['y'])", {})
     if form == "deflam":
         # functions from one source line that differ only in a default argument (the `lambda d, c=c: d[c]` idiom)
         fn = eval("lambda d, _f=%r: d[_f]" % field, {})
@@ -145,9 +148,15 @@ def build(d, g, shared=None):
     elif k == "Select":
         out = hg.Select(make_quantity(d), B(d["cut"]))
     elif k in ("Label", "UntypedLabel"):
-        out = getattr(hg, k)(**{key: B(c) for key, c in d["pairs"].items()})
+        if "ed" in d:       # put together with .ed(entries, children)
+            out = getattr(hg, k).ed(to_float(d["ed"]), **{key: B(c) for key, c in d["pairs"].items()})
+        else:
+            out = getattr(hg, k)(**{key: B(c) for key, c in d["pairs"].items()})
     elif k in ("Index", "Branch"):
-        out = getattr(hg, k)(*[B(c) for c in d["vals"]])
+        if "ed" in d:
+            out = getattr(hg, k).ed(to_float(d["ed"]), *[B(c) for c in d["vals"]])
+        else:
+            out = getattr(hg, k)(*[B(c) for c in d["vals"]])
     else:
         raise ValueError(k)
     if shared is not None:
@@ -303,6 +312,8 @@ def check_exact(d, g):
 # data
 
 CAT = {"None": None, "True": True, "False": False}
+# how the categories "True" / "False" are handed to the library: as booleans ("bool") or as the strings ("str")
+CATMODE = ["bool"]
 
 
 class AttrRecord:
@@ -342,7 +353,7 @@ def _datum(x, g):
         "s": to_float(x["s"]),
         "e": g.pos(x["x"]),       # (x and y once more, under names that collide with math.e / math.pi: expr.ALIAS)
         "pi": g.pos(x["y"]),
-        "c": CAT.get(c, c),
+        "c": (c if CATMODE[0] == "str" and c in ("True", "False") else CAT.get(c, c)),
         "fa": x.get("fa", ""),
         "fm": x.get("fm", ""),
     }
